@@ -586,10 +586,18 @@ def _build_hyp(key):
   copt, sopt = opt_of(HYP_COPT[hp['copt']]), opt_of(HYP_SOPT[hp['sopt']])
   bh = batch_hparams(hp['batch'])
   reg = hyp_regularizer if hp.get('reg') else None
-  alg = hyp_lib.hyp_cluster(
-      per_example_loss, copt, sopt,
-      fedjax.PaddedBatchHParams(batch_size=hp['mbs'], num_batch_size_buckets=hp['buckets']),
-      bh, regularizer=reg)
+  pmap = hp.get('backend') == 'pmap'
+  # the documented parallel backend (3 of the virtual CPU devices): it may
+  # process and yield clients in another order than they were listed, and it
+  # needs one batch shape per call (one bucket)
+  from fedjax.core import for_each_client as fec
+  backend = fec.ForEachClientPmapBackend(jax.local_devices()[:3]) if pmap else 'jit'
+  with fedjax.for_each_client_backend(backend):
+    alg = hyp_lib.hyp_cluster(
+        per_example_loss, copt, sopt,
+        fedjax.PaddedBatchHParams(batch_size=hp['mbs'],
+                                  num_batch_size_buckets=1 if pmap else hp['buckets']),
+        bh, regularizer=reg)
   grad = fedjax.grad(per_example_loss, reg) if reg else GRAD[False]
   ref = fed_avg_lib.federated_averaging(grad, copt, sopt, bh)
   return alg, ref
@@ -684,6 +692,7 @@ def hyp_labels(case):
     ls.append('duplicate_cluster_params')
   if hp.get('reg'):
     ls.append('regularizer')
+  ls.append('backend:' + hp.get('backend', 'jit'))
   return ls + returning_labels(case)
 
 
@@ -971,7 +980,7 @@ def _apfl_preset(i):
 def _hyp_preset(i):
   return {'copt': i % 3, 'sopt': [0, 1, 2][i % 3], 'mbs': [2, 4][(i // 2) % 2],
           'buckets': [1, 2][i % 2], 'batch': preset_batch([2, 3, 5][i % 3]),
-          'reg': i % 2}
+          'reg': i % 2, 'backend': ['jit', 'pmap', 'jit', 'jit', 'pmap'][i % 5]}
 
 
 def _mime_preset(i):
@@ -981,7 +990,7 @@ def _mime_preset(i):
 
 AG_PRESETS = [_ag_preset(i) for i in range(9)]
 APFL_PRESETS = [_apfl_preset(i) for i in range(7)]
-HYP_PRESETS = [_hyp_preset(i) for i in range(4)]
+HYP_PRESETS = [_hyp_preset(i) for i in range(5)]
 MIME_PRESETS = [_mime_preset(i) for i in range(7)]
 
 
@@ -1042,7 +1051,8 @@ def _hyp_free(draw):
   return {'copt': draw(st.integers(0, len(HYP_COPT) - 1)),
           'sopt': draw(st.sampled_from([0, 0, 1, 1, 2])),
           'mbs': draw(st.sampled_from([2, 4])), 'buckets': draw(st.sampled_from([1, 2])),
-          'batch': draw_batch(draw), 'reg': draw(st.integers(0, 1))}
+          'batch': draw_batch(draw), 'reg': draw(st.integers(0, 1)),
+          'backend': draw(st.sampled_from(['jit', 'jit', 'pmap']))}
 
 
 @st.composite
